@@ -5,6 +5,21 @@ i128 g_x, g_y;                      /* ghost concrete points: arbitrary, never a
 #define GRANGE (g_x > -ZB && g_x < ZB && g_y > -ZB && g_y < ZB)
 #define HGHOSTS GHOSTG(i128, g_x); GHOSTG(i128, g_y)
 
+
+/* ---- harness-side predicates.  dfcc instruments every function reachable from the harness (extra write-set
+ * parameter); a function that is ALSO called from a contract clause then gets too few arguments there and the check
+ * never finishes.  So harness code uses these self-contained twins (no calls at all) instead of spec.h functions. */
+#define HV(b) ((i128)(((u128)(b).f1.f0.a[0].f1 << 64) | (u128)(b).f1.f0.a[0].f0))
+#define H_PINF(b) ((b).f0 != 0 && HV(b) > 0)
+#define H_MINF(b) ((b).f0 != 0 && HV(b) < 0)
+#define H_BLE(a, b) (H_MINF(a) || H_PINF(b) || ((a).f0 == 0 && (b).f0 == 0 && HV(a) <= HV(b)))
+#define H_BEQ(a, b) ((((a).f0 != 0) == ((b).f0 != 0)) && HV(a) == HV(b))
+#define H_BOT(i) (!H_BLE((i).f0, (i).f1))
+#define H_TOP(i) (H_MINF((i).f0) && H_PINF((i).f1))
+#define H_LENUM(b, n) ((b).f0 ? HV(b) < 0 : HV(b) <= (n))   /* b <= n */
+#define H_NUMLE(n, b) ((b).f0 ? HV(b) > 0 : (n) <= HV(b))   /* n <= b */
+/* sign class of an interval: 0 bottom or entirely negative, 1 entirely positive, 2 contains zero */
+#define H_SGNCLS(i) (H_BOT(i) ? 0 : H_LENUM((i).f1, -1) ? 0 : H_NUMLE(1, (i).f0) ? 1 : 2)
 /* ---------------------------------------------------------------- bound */
 #define BFRESH2(tag) (FRESH(tag, self, sizeof(B)) && FRESH(tag, x, sizeof(B)))
 #define BCMP(tag, fn, EXPR) \
@@ -156,44 +171,23 @@ __CPROVER_ensures(i_bot(*self) ? i_bot(*ret) : i_is(*ret, x_neg(UB(self)), x_neg
 __CPROVER_ensures(TOP(i_neg, i_has(*self, g_x) ==> i_has(*ret, -g_x)));
 void h_i_neg(void){ IN(I, a); HGHOSTS; I r; _ZNK4ikos8intervalINS_8z_numberEEngEv(&r, &a); REACH; }
 
-/* multiplication: result bounds are the min / max of the four corner products (tight), and sound under the
- * monotonicity lemma instances of lemmas/mul_mono.smt2 (multiplication is an uninterpreted symbol here) */
-static inline i128 mn(i128 p, i128 q){ return p <= q ? p : q; }
-static inline i128 mx(i128 p, i128 q){ return p <= q ? q : p; }
+/* multiplication: result bounds are the min / max of the four corner products in extended arithmetic with 0 * oo = 0
+ * (exact, hence tight); soundness = that exact formula + ONE instance of the corner lemma
+ * lemmas/interval_mul_corner.smt2 (proved over the mathematical integers by z3 and cvc5 on every run).
+ * Multiplication itself is the uninterpreted symbol of models/zmodel.c. */
 #define M ZM_mul_pure
-static inline bool L1(i128 lo, i128 g, i128 hi, i128 y){ return !(lo <= g && g <= hi) || (mn(M(lo, y), M(hi, y)) <= M(g, y) && M(g, y) <= mx(M(lo, y), M(hi, y))); }
-static inline bool L2(i128 x, i128 lo, i128 g, i128 hi){ return !(lo <= g && g <= hi) || (mn(M(x, lo), M(x, hi)) <= M(x, g) && M(x, g) <= mx(M(x, lo), M(x, hi))); }
-static inline bool H1(i128 lo, i128 g, i128 y){ return !(lo <= g) || (y >= 0 ? M(lo, y) <= M(g, y) : M(g, y) <= M(lo, y)); }
-static inline bool H2(i128 x, i128 lo, i128 g){ return !(lo <= g) || (x >= 0 ? M(x, lo) <= M(x, g) : M(x, g) <= M(x, lo)); }
-static inline bool MUL_LEMMAS(I s, I x, i128 gx, i128 gy){
-  i128 a = bval(s.f0), b = bval(s.f1), c = bval(x.f0), d = bval(x.f1);
-  return L1(a, gx, b, gy) && L2(a, c, gy, d) && L2(b, c, gy, d) && H1(a, gx, gy) && H1(gx, b, gy) && H2(a, c, gy) && H2(a, gy, d) && H2(b, c, gy) && H2(b, gy, d)
-      && H2(gx, c, gy) && H2(gx, gy, d) && H1(a, gx, c) && H1(a, gx, d) && H1(gx, b, c) && H1(gx, b, d); }
 #define CORNERS_MIN x_min(x_min(x_mul(LB(self), LB(x)), x_mul(LB(self), UB(x))), x_min(x_mul(UB(self), LB(x)), x_mul(UB(self), UB(x))))
 #define CORNERS_MAX x_max(x_max(x_mul(LB(self), LB(x)), x_mul(LB(self), UB(x))), x_max(x_mul(UB(self), LB(x)), x_mul(UB(self), UB(x))))
-//@check id=i_mul fn=_ZNK4ikos8intervalINS_8z_numberEEmlERKS2_ props=C08 timeout=900 first_timeout=600 backends=minisat,kissat cost=9
-//@check id=i_mul_sound fn=_ZNK4ikos8intervalINS_8z_numberEEmlERKS2_ tag=i_mul harness=h_i_mul props=C08 vary=MCASE:0-8 timeout=900 first_timeout=600 backends=minisat,kissat cost=9
-#ifdef CHECK_i_mul_sound
-#define MUL_EXACT 1
-#define MUL_SOUND ((i_has(*self, g_x) && i_has(*x, g_y) && MUL_LEMMAS(*self, *x, g_x, g_y)) ==> i_has(*ret, M(g_x, g_y)))
-#else
-#define MUL_EXACT (ANYBOT ? i_bot(*ret) : i_is(*ret, CORNERS_MIN, CORNERS_MAX))
-#define MUL_SOUND 1
-#endif
-/* sign class of an interval: 0 bottom or entirely negative, 1 entirely positive, 2 contains zero */
-static inline int sgncls(I i){ return i_bot(i) ? 0 : b_le(i.f1, mkfin(-1)) ? 0 : b_le(mkfin(1), i.f0) ? 1 : 2; }
-void _ZNK4ikos8intervalINS_8z_numberEEmlERKS2_(I *ret, I *self, I *x)
-__CPROVER_requires(FRESH(i_mul, ret, sizeof(I)) && IFRESH2(i_mul) && i_ok(*self) && i_ok(*x) && TOP(i_mul, GRANGE))
-__CPROVER_assigns(*ret)
-__CPROVER_ensures(i_okz(*ret, ZLIM))
-__CPROVER_ensures(MUL_EXACT)
-__CPROVER_ensures(TOP(i_mul, MUL_SOUND));
-#ifndef MCASE
-#define MCASE (3 * sgncls(a) + sgncls(b))
-#endif
-/* the soundness run is split into the 9 sign-class combinations of the operands (a total case split: the harness
- * fixes the class pair, the vary list enumerates all of them) */
-void h_i_mul(void){ IN(I, a); IN(I, b); HGHOSTS; I r; __CPROVER_assume(3 * sgncls(a) + sgncls(b) == MCASE); _ZNK4ikos8intervalINS_8z_numberEEmlERKS2_(&r, &a, &b); REACH; }
+static inline bool CORNER_MUL(I s, I x, i128 gx, i128 gy){
+  if (i_bot(s) || i_bot(x) || !i_has(s, gx) || !i_has(x, gy)) return true;
+  i128 p = M(gx, gy);
+  B ll = x_mul(s.f0, x.f0), lu = x_mul(s.f0, x.f1), ul = x_mul(s.f1, x.f0), uu = x_mul(s.f1, x.f1);
+  return (b_le_num(ll, p) || b_le_num(lu, p) || b_le_num(ul, p) || b_le_num(uu, p))
+      && (num_le_b(p, ll) || num_le_b(p, lu) || num_le_b(p, ul) || num_le_b(p, uu)); }
+//@check id=i_mul fn=_ZNK4ikos8intervalINS_8z_numberEEmlERKS2_ props=C08 timeout=900 first_timeout=400 backends=minisat,kissat cost=9
+IBIN(i_mul, _ZNK4ikos8intervalINS_8z_numberEEmlERKS2_, ZLIM,
+     ANYBOT ? i_bot(*ret) : i_is(*ret, CORNERS_MIN, CORNERS_MAX),
+     (i_has(*self, g_x) && i_has(*x, g_y) && CORNER_MUL(*self, *x, g_x, g_y)) ==> i_has(*ret, M(g_x, g_y)))
 
 /* ---------------------------------------------------------------- bound: remaining operations */
 /* division, divisor != 0 (a zero divisor is a CRAB_ERROR); finite / infinite = 0 by convention */
@@ -279,36 +273,74 @@ IUN(i_upper_half, _ZNK4ikos8intervalINS_8z_numberEE15upper_half_lineEv, (i_has(*
 
 /* ---------------------------------------------------------------- interval: division and remainders */
 #define D ZM_div_pure
-static inline bool D1(i128 a, i128 g, i128 y){ return !(a <= g && y != 0) || (y > 0 ? D(a, y) <= D(g, y) : D(g, y) <= D(a, y)); }
-static inline bool D2(i128 x, i128 c, i128 g){ return !(c <= g && (c > 0 || g < 0)) || (x >= 0 ? D(x, g) <= D(x, c) : D(x, c) <= D(x, g)); }
-/* instances of lemmas/div_mono.smt2 at the corner points the (recursive) algorithm uses: the operands' bounds and +-1 */
-static inline bool DIV_LEMMAS(I s, I x, i128 gx, i128 gy){
-  i128 a = bval(s.f0), b = bval(s.f1), c = bval(x.f0), d = bval(x.f1);
-  i128 P[5] = {a, 1, b, -1, gx};
-  bool ok = D1(a, gx, gy) && D1(1, gx, gy) && D1(gx, b, gy) && D1(gx, -1, gy);
-  for (int i = 0; i < 5; i++) ok = ok && D2(P[i], c, gy) && D2(P[i], 1, gy) && D2(P[i], gy, d) && D2(P[i], gy, -1);
-  i128 Q[4] = {c, 1, d, -1};
-  for (int j = 0; j < 4; j++) ok = ok && D1(a, gx, Q[j]) && D1(1, gx, Q[j]) && D1(gx, b, Q[j]) && D1(gx, -1, Q[j]);
-  return ok; }
-/* operator/ is recursive (zero-crossing operands are split); the recursive calls are assumed to satisfy this same
- * contract (--enforce-contract-rec); termination of the recursion is not proved */
-//@check id=i_div fn=_ZNK4ikos8intervalINS_8z_numberEEdvERKS2_ props=C08 rec=1 vary=DCASE:0-17 timeout=1500 first_timeout=700 backends=minisat,cvc5 cost=9 unwind=6
+/* Soundness of division = what the code computes in each of its cases + instances of the two lemmas of
+ * lemmas/interval_div_corner.smt2 at the very operand pairs the (recursive) algorithm reaches:
+ *   CORNER: divisor interval without zero: the quotient lies between the least and the greatest corner quotient;
+ *   SINGLE: singleton divisor c != 0: the quotient lies between lb/c and ub/c (swapped for c < 0).
+ * DIVHYP mirrors the case analysis of operator/ (singleton divisor; divisor containing zero -> split [c,-1],[1,d];
+ * dividend containing zero -> split [a,-1],[1,b]; else corners).  Nothing else about division is used. */
+/* written over scalars (inf flag, value) with macros only: spec functions are instrumented by dfcc, so nested calls
+ * with struct arguments are expensive */
+#define LENUM(bi, bv, n) ((bi) ? (bv) < 0 : (bv) <= (n))        /* bound <= n */
+#define NUMLE(n, bi, bv) ((bi) ? (bv) > 0 : (n) <= (bv))        /* n <= bound */
+#define XDV(ai, av, bi, bv) (!(ai) && !(bi) ? D(av, bv) : !(ai) ? (i128)0 : !(bi) ? ((bv) > 0 ? (av) : -(av)) : ((((av) > 0) == ((bv) > 0)) ? (i128)1 : (i128)-1))  /* value of x_div */
+#define XDI(ai, bi) ((ai) != 0)                                  /* x_div(a, b) is infinite iff a is */
+#define HASB(ai, av, bi, bv, g) (LENUM(ai, av, g) && NUMLE(g, bi, bv))
+#define NOZERO(ci, cv, di, dv) ((!(ci) && (cv) >= 1) || (!(di) && (dv) <= -1))
+#define ISSINGLE(ci, cv, di, dv) (!(ci) && !(di) && (cv) == (dv))
+#define HASZERO(ci, cv, di, dv) (LENUM(ci, cv, 0) && NUMLE(0, di, dv))
+static inline bool CORNER_DIV(bool ai, i128 av, bool bi, i128 bv, bool ci, i128 cv, bool di, i128 dv, i128 gx, i128 gy){
+  if (!(HASB(ai, av, bi, bv, gx) && HASB(ci, cv, di, dv, gy) && NOZERO(ci, cv, di, dv))) return true;
+  i128 q = D(gx, gy);
+  i128 ll = XDV(ai, av, ci, cv), lu = XDV(ai, av, di, dv), ul = XDV(bi, bv, ci, cv), uu = XDV(bi, bv, di, dv);
+  return (LENUM(XDI(ai, ci), ll, q) || LENUM(XDI(ai, di), lu, q) || LENUM(XDI(bi, ci), ul, q) || LENUM(XDI(bi, di), uu, q))
+      && (NUMLE(q, XDI(ai, ci), ll) || NUMLE(q, XDI(ai, di), lu) || NUMLE(q, XDI(bi, ci), ul) || NUMLE(q, XDI(bi, di), uu)); }
+static inline bool SINGLE_DIV(bool ai, i128 av, bool bi, i128 bv, i128 c, i128 gx){
+  if (!(HASB(ai, av, bi, bv, gx) && c != 0)) return true;
+  i128 q = D(gx, c);
+  i128 lo = XDV(ai, av, false, c), hi = XDV(bi, bv, false, c);
+  return c > 0 ? (LENUM(XDI(ai, false), lo, q) && NUMLE(q, XDI(bi, false), hi)) : (LENUM(XDI(bi, false), hi, q) && NUMLE(q, XDI(ai, false), lo)); }
+/* level 2: neither operand needs splitting any more */
+#define DIVHYP2(ai, av, bi, bv, ci, cv, di, dv, gx, gy) (ISSINGLE(ci, cv, di, dv) ? SINGLE_DIV(ai, av, bi, bv, cv, gx) : CORNER_DIV(ai, av, bi, bv, ci, cv, di, dv, gx, gy))
+/* level 1: divisor [c,d] without zero (or singleton); the dividend may contain zero */
+#define DIVHYP1(ai, av, bi, bv, ci, cv, di, dv, gx, gy) ((ISSINGLE(ci, cv, di, dv) || !HASZERO(ai, av, bi, bv)) ? DIVHYP2(ai, av, bi, bv, ci, cv, di, dv, gx, gy) \
+   : (DIVHYP2(ai, av, false, (i128)-1, ci, cv, di, dv, gx, gy) && DIVHYP2(false, (i128)1, bi, bv, ci, cv, di, dv, gx, gy)))
+/* level 0: general */
+static inline bool DIVHYP(const I *s, const I *x, i128 gx, i128 gy){
+  bool ai = s->f0.f0 != 0, bi = s->f1.f0 != 0, ci = x->f0.f0 != 0, di = x->f1.f0 != 0;
+  i128 av = ZV(&s->f0.f1), bv = ZV(&s->f1.f1), cv = ZV(&x->f0.f1), dv = ZV(&x->f1.f1);
+  if (!(LENUM(ai, av, 0) || NUMLE(0, bi, bv) || true)) return true;
+  if (gx == 0 && D(gx, gy) != 0) return false;          /* schema D1 of lemmas/zm_sign_rules.smt2: 0 / y = 0 */
+  if (ISSINGLE(ci, cv, di, dv) || !HASZERO(ci, cv, di, dv)) return DIVHYP1(ai, av, bi, bv, ci, cv, di, dv, gx, gy);
+  return DIVHYP1(ai, av, bi, bv, ci, cv, false, (i128)-1, gx, gy) && DIVHYP1(ai, av, bi, bv, false, (i128)1, di, dv, gx, gy); }
+/* operator/ is recursive (zero-crossing operands are split); the recursive calls are replaced by this same contract
+ * (--enforce-contract-rec: their precondition is checked, their postcondition assumed); termination is not proved */
+/* the lemma-based proof for unbounded magnitudes is heavy (about 20 min per case with cvc5): thorough tier.  The quick
+ * tier runs the same contract bit-precisely on small magnitudes (BOUNDED: |values| < 8, 16-bit machine division) */
+//@check id=i_div fn=_ZNK4ikos8intervalINS_8z_numberEEdvERKS2_ props=C08 tier=thorough rec=1 vary=DCASE:0-17 timeout=3000 first_timeout=1500 backends=minisat,cvc5 cost=9 mem=14
+//@check id=i_div_small fn=_ZNK4ikos8intervalINS_8z_numberEEdvERKS2_ tag=i_div harness=h_i_div props=C08 rec=1 defs=ZM_SMALL=16,ZBITS=3 vary=DCASE:0,2,4,12-17 vary_thorough=DCASE:0-17 mem=7 bounded="finite bounds and ghost points below 8 in magnitude, 16-bit machine division; quick tier: 9 of the 18 sign-class cases (the unbounded lemma-based proof is check i_div, thorough tier)" timeout=900 first_timeout=600 backends=minisat,kissat cost=8
 void _ZNK4ikos8intervalINS_8z_numberEEdvERKS2_(I *ret, I *self, I *x)
 __CPROVER_requires(FRESH(i_div, ret, sizeof(I)) && IFRESH2(i_div) && i_ok(*self) && i_ok(*x) && TOP(i_div, GRANGE))
+/* the lemma instances are a PRECONDITION: assumed for the top-level call, and PROVED again for the operands of every
+ * recursive call (whose postcondition is then assumed), so the induction is closed inside the check */
+#ifndef ZM_SMALL
+__CPROVER_requires(TOP(i_div, (i_bot(*self) || i_bot(*x) || DIVHYP(self, x, g_x, g_y))))
+#endif
 __CPROVER_assigns(*ret)
 __CPROVER_ensures(i_okz(*ret, ZB))
 __CPROVER_ensures(ANYBOT ==> i_bot(*ret))
-__CPROVER_ensures(TOP(i_div, (i_has(*self, g_x) && i_has(*x, g_y) && g_y != 0 && DIV_LEMMAS(*self, *x, g_x, g_y)) ==> i_has(*ret, D(g_x, g_y))));
-/* total case split of the top-level call (the contract itself stays general, recursive calls use it unrestricted):
+__CPROVER_ensures(TOP(i_div, (i_has(*self, g_x) && i_has(*x, g_y) && g_y != 0) ==> i_has(*ret, D(g_x, g_y))));
+/* total case split of the top-level call (the contract itself stays general):
  * 9 sign-class combinations, the divisor class further split into singleton / non-singleton */
 #ifndef DCASE
 #define DCASE 0
 #endif
-static inline int divcase(I a, I b){ return 2 * (3 * sgncls(a) + sgncls(b)) + ((!i_bot(b) && b_eq(b.f0, b.f1)) ? 1 : 0); }
-void h_i_div(void){ IN(I, a); IN(I, b); HGHOSTS; I r; __CPROVER_assume(divcase(a, b) == DCASE); _ZNK4ikos8intervalINS_8z_numberEEdvERKS2_(&r, &a, &b); REACH; }
+#define H_DIVCASE(a, b) (2 * (3 * H_SGNCLS(a) + H_SGNCLS(b)) + ((!H_BOT(b) && H_BEQ((b).f0, (b).f1)) ? 1 : 0))
+void h_i_div(void){ IN(I, a); IN(I, b); HGHOSTS; I r; __CPROVER_assume(H_DIVCASE(a, b) == DCASE); _ZNK4ikos8intervalINS_8z_numberEEdvERKS2_(&r, &a, &b); REACH; }
 /* instance of schema R1 of lemmas/zm_sign_rules.smt2 at the ghost points */
-static inline i128 zabs_(i128 a){ return a < 0 ? -a : a; }
-static inline bool REM_RULES(i128 a, i128 b){ i128 r = ZM_rem_pure(a, b); return b == 0 || (zabs_(r) < zabs_(b) && (r == 0 || ((r > 0) == (a > 0)))); }
+static inline bool REM_RULES(i128 a, i128 b){
+  i128 r = ZM_rem_pure(a, b); i128 ab = b < 0 ? -b : b;      /* b is a ghost point or its unsigned reading: in range */
+  return b == 0 || (r > -ab && r < ab && (a == 0 ? r == 0 : (r == 0 || ((r > 0) == (a > 0)))) && ((a < ab && a > -ab) ? r == a : true)); }
 /* signed remainder (sign of the dividend, |r| < |divisor|) */
 //@check id=i_srem fn=_ZNK4ikos8intervalINS_8z_numberEE4SRemERKS2_ props=C08
 IBIN(i_srem, _ZNK4ikos8intervalINS_8z_numberEE4SRemERKS2_, ZB,
@@ -372,7 +404,7 @@ __CPROVER_ensures(TOP(i_shl, (i_has(*self, g_x) && i_has(*x, g_y) && g_y >= 0 &&
 void h_i_shl(void){ IN(I, a); IN(I, b); HGHOSTS; I r; _ZNK4ikos8intervalINS_8z_numberEE3ShlERKS2_(&r, &a, &b); REACH; }
 /* a non-singleton or negative shift amount gives top */
 //@check id=i_shl_top fn=_ZNK4ikos8intervalINS_8z_numberEE3ShlERKS2_ tag=i_shl harness=h_i_shl_top props=C08 unwind=2
-void h_i_shl_top(void){ IN(I, a); IN(I, b); HGHOSTS; I r; __CPROVER_assume(!i_bot(b) && (!b_eq(b.f0, b.f1) || bval(b.f0) < 0)); _ZNK4ikos8intervalINS_8z_numberEE3ShlERKS2_(&r, &a, &b); __CPROVER_assert(i_bot(a) ? i_bot(r) : i_top(r), "Shl by a non-singleton or negative amount is top"); REACH; }
+void h_i_shl_top(void){ IN(I, a); IN(I, b); HGHOSTS; I r; __CPROVER_assume(!H_BOT(b) && (!H_BEQ(b.f0, b.f1) || HV(b.f0) < 0)); _ZNK4ikos8intervalINS_8z_numberEE3ShlERKS2_(&r, &a, &b); __CPROVER_assert(H_BOT(a) ? H_BOT(r) : H_TOP(r), "Shl by a non-singleton or negative amount is top"); REACH; }
 
 /* ---------------------------------------------------------------- linear_interval_solver helpers */
 /* trim_interval(i, j): refine i with the disequation x != c when j is the singleton {c}: nothing but c is lost */
